@@ -150,8 +150,13 @@ def run(ctx):
                                     "consecutive scales have incompatible chunk sizes"),
                                     dict(desc, transition=i, axis=a, old_chunk=c0, new_chunk=c1, factor=f), key=key)
                     break
-        reqs.append(f"scales {core.ilist(size)} {core.ilist(delays)} {e} {'none' if not max_scales else max_scales}")
-        meta.append((desc, ";".join(core.ilist(s) + "/" + core.ilist(c) + "/" + core.ilist(f) for s, c, f in rows)))
+        # the model computes the delays itself from the float quotients the code forms (exact value of res / min res)
+        best = min(float(v) for v in full["resolution"])
+        ratios = [Fraction(float(v) / best) for v in full["resolution"]]
+        reqs.append(f"scales-res {core.ilist(size)} " + ",".join(f"{q.numerator}/{q.denominator}" for q in ratios)
+                    + f" {e} {'none' if not max_scales else max_scales}")
+        meta.append((desc, core.ilist(delays) + " " + ";".join(
+            core.ilist(s) + "/" + core.ilist(c) + "/" + core.ilist(f) for s, c, f in rows)))
     # ---- through the command-line module, with set_info_params -------------------------------------------
     for _ in range(ctx.budget(25, 400)):
         tmp = tempfile.mkdtemp(prefix="ngv_c08_")
